@@ -4464,6 +4464,7 @@ impl Lexer<'_> {
             }
             '%' if is_valid_unicode_sas_name_start(self.cursor.peek_next()) => {
                 self.start_token();
+                let mode_stack_len = self.mode_stack.len();
                 self.lex_macro_identifier(false);
 
                 // This may be both %do %while/until or %do %mcall_that_creates_iter_var
@@ -4474,6 +4475,16 @@ impl Lexer<'_> {
                 if self.buffer.last_token_info().is_some_and(|ti| {
                     ![TokenType::KwmUntil, TokenType::KwmWhile].contains(&ti.token_type)
                 }) {
+                    // The macro call we've just lexed may have pushed its own modes (arguments,
+                    // expected parens). They must be handled first, so the modes of
+                    // the iterative %do go below them, including below a checkpoint
+                    // that the call may have set for its arguments look-ahead
+                    let call_modes = self.mode_stack.split_off(mode_stack_len);
+                    if let Some(checkpoint) = self.checkpoint.as_mut() {
+                        if checkpoint.mode_stack_len >= mode_stack_len {
+                            checkpoint.mode_stack_len += 5;
+                        }
+                    }
                     self.push_mode(LexerMode::MacroEval {
                         macro_eval_flags: MacroEvalExprFlags::new(
                             MacroEvalNumericMode::Integer,
@@ -4493,6 +4504,7 @@ impl Lexer<'_> {
                     // Note the difference from below. We already lexed one part of the var name expr,
                     // so we pass `true` and do not pass error, since it won't ever be emitted anyway
                     self.push_mode(LexerMode::MacroNameExpr(true, None));
+                    self.mode_stack.extend(call_modes);
                 }
             }
             _ => {
